@@ -74,10 +74,13 @@ def write_replay(args, prop, idx, rs, ops, v, minimised, original_len, cfg=None)
     os.makedirs(args.replay_dir, exist_ok=True)
     name = "%s_seed%d_run%d_%s.json" % (prop, args.seed, idx, v["cls"])
     path = os.path.join(args.replay_dir, name)
+    head = {"property": prop, "verif_seed": args.seed, "run_index": idx, "run_seed": rs,
+            "config": cfg, "minimised": minimised, "original_ops": original_len, "violation": v}
     with open(path, "w") as f:
-        json.dump({"property": prop, "verif_seed": args.seed, "run_index": idx, "run_seed": rs,
-                   "config": cfg, "minimised": minimised, "original_ops": original_len,
-                   "violation": v, "ops": ops}, f, indent=1, allow_nan=True)
+        body = json.dumps(head, indent=1, allow_nan=True, default=str)
+        f.write(body[:-2] + ',\n "ops": [\n')
+        f.write(",\n".join("  " + json.dumps(o, allow_nan=True) for o in ops))
+        f.write("\n ]\n}\n")
     return path
 
 
